@@ -679,7 +679,7 @@ func (w *termWorld) drawOnce() bool {
 			}
 			cell := t.Cell(r, c)
 			if !cell.Blank() || cell.Style != (simterm.Style{}) {
-				w.violate05("draw-escapes-window", "term.Model.Draw", "after drawing the %dx%d emulator into the host window at row %d col %d the host terminal cell (row %d, col %d) outside it shows %q", w.rows, w.cols, w.winRow, w.winCol, r, c, cell.G)
+				w.violate05("draw-escapes-window", "term.Model.Draw", "after drawing the %dx%d emulator into the host window at row %d col %d the host terminal cell (row %d, col %d) outside it shows %q with style %+v", w.rows, w.cols, w.winRow, w.winCol, r, c, cell.G, cell.Style)
 				return false
 			}
 		}
